@@ -121,7 +121,8 @@ def Diff.wfb (d : Diff) : Bool :=
   d.deployed.all (fun p => !(d.replaced.any (fun q => q.1 == p.1))) &&
   d.deployed.all (fun p => !isSystem p.1) && d.replaced.all (fun p => !isSystem p.1) &&
   d.nonces.all (fun p => !isSystem p.1) &&
-  d.extraClasses.all (fun c => d.deployed.any (fun p => p.2 == c))
+  d.extraClasses.all (fun c => d.deployed.any (fun p => p.2 == c)) &&
+  nodupKeys (d.classHashes.map (fun c => (c, ())))
 
 /-! ## The definition in the property: the abstract state is the fold of the diffs -/
 
@@ -272,6 +273,9 @@ structure Cfg where
 
 def Cfg.asFound : Cfg := ⟨false, false, false⟩
 def Cfg.repaired : Cfg := ⟨true, true, true⟩
+/-- the tree: b4efaf4 (`leafFix`) and 904a370 (`histOrderFix`) are applied, the system-contract probe
+change is only proposed -/
+def Cfg.current : Cfg := ⟨true, false, true⟩
 
 inductive Err
   | alreadyDeployed | notFound | notDeployed | classMissing | checkHeadState
@@ -439,6 +443,13 @@ def NState.reverseReplaced (s : NState) (b : Nat) (d : Diff) : List (Addr × CHa
 /-- classes declared by the reverted block (and at that block) are deleted -/
 def undeclareFold (classes : Bucket CHash Nat) (b : Nat) (cs : List CHash) : Bucket CHash Nat :=
   cs.foldl (fun m c => if bget m c = some b then bset m c none else m) classes
+
+/-- legacy `removeDeclaredClasses`, one class: the class must be there; it is deleted if it was
+declared at the reverted block -/
+def undeclareStepM (b : Nat) (m : Bucket CHash Nat) (c : CHash) : Except Err (Bucket CHash Nat) :=
+  match bget m c with
+  | none => .error .classMissing
+  | some at_ => .ok (if at_ = b then bset m c none else m)
 
 /-- `stateObjects[addr] = nil` for the block's deployed contracts; `flush`: `DeleteContract` +
 `DeleteStorageNodesByPath`. Result = (records, tries, leaves). -/
@@ -612,8 +623,13 @@ def LState.purgeSystem (s : LState) : LState :=
 
 /-- `State.Revert` of block `b` whose diff was `d` -/
 def LState.revert (s : LState) (b : Nat) (d : Diff) : Except Err LState :=
-  if d.classHashes.any (fun c => (bget s.classes c).isNone) then .error .classMissing else
-  let s1 := { s with classes := undeclareFold s.classes b d.revertClasses }
+  -- `removeDeclaredClasses` reads and deletes class by class on the same transaction (the declared
+  -- lists are a slice + map keys: a class listed twice is missing the second time);
+  -- `removeDeployedContractClasses` then tolerates missing classes
+  match d.classHashes.foldlM (undeclareStepM b) s.classes with
+  | .error e => .error e
+  | .ok cl =>
+  let s1 := { s with classes := undeclareFold cl b (d.deployed.map Prod.snd) }
   let rs := s1.reverseStorage b d
   if b != 0 && d.nonces.any (fun p => (legacyValueAt (lget s1.logs (.nonce p.1)) (b - 1)).isNone) then .error .checkHeadState else
   let rn := d.nonces.map (fun p => (p.1, if b = 0 then 0 else (legacyValueAt (lget s1.logs (.nonce p.1)) (b - 1)).getD 0))
@@ -732,20 +748,26 @@ structure Backend (σ : Type) where
   revert : σ → Nat → Diff → Except Err σ
   headRead : σ → Query → Res
   histRead : σ → Nat → Query → Res
+  /-- `StateAtBlockHash` reads the header of the number the hash resolves to (new backend: it needs
+  the state root; the legacy backend opens the history reader on the number alone) -/
+  hashViewNeedsHeader : Bool
 
 def newBackend (cfg : Cfg) : Backend NState :=
-  ⟨NState.empty, NState.update cfg, NState.revert cfg, NState.headRead, NState.histRead cfg⟩
+  ⟨NState.empty, NState.update cfg, NState.revert cfg, NState.headRead, NState.histRead cfg, true⟩
 
 def legacyBackend : Backend LState :=
-  ⟨LState.empty, LState.update, LState.revert, LState.headRead, LState.histRead⟩
+  ⟨LState.empty, LState.update, LState.revert, LState.headRead, LState.histRead, false⟩
 
 structure Node (σ : Type) where
   st : σ
   /-- stored blocks, newest first: block hash and the state update read back by `RevertHead` -/
   blocks : List (BlockId × Diff)
   casmMeta : MetaMap
+  /-- bucket `BlockHeaderNumbersByHash`: written by `writeBlockContent`, the entry of the head's
+  hash deleted by `deleteBlockContent` -/
+  hashIdx : Bucket BlockId Nat
 
-def Node.init {σ : Type} (be : Backend σ) : Node σ := ⟨be.init, [], []⟩
+def Node.init {σ : Type} (be : Backend σ) : Node σ := ⟨be.init, [], [], []⟩
 
 def Node.chain {σ : Type} (n : Node σ) : List Diff := n.blocks.map (·.2)
 
@@ -756,20 +778,20 @@ def Node.store {σ : Type} (be : Backend σ) (n : Node σ) (id : BlockId) (d : D
   | .ok st =>
     match metaStore n.casmMeta n.blocks.length d with
     | .error e => .error e
-    | .ok m => .ok ⟨st, (id, d) :: n.blocks, m⟩
+    | .ok m => .ok ⟨st, (id, d) :: n.blocks, m, bset n.hashIdx id (some n.blocks.length)⟩
 
 /-- `RevertHead` -/
 def Node.revert {σ : Type} (be : Backend σ) (n : Node σ) : Except Err (Node σ) :=
   match n.blocks with
   | [] => .error .emptyChain
-  | (_, d) :: rest =>
+  | (id, d) :: rest =>
     if !metaRevertCheck n.casmMeta d then .error .cannotUnmigrate else
     match be.revert n.st rest.length d with
     | .error e => .error e
     | .ok st =>
       match metaRevert n.casmMeta d with
       | .error e => .error e
-      | .ok m => .ok ⟨st, rest, m⟩
+      | .ok m => .ok ⟨st, rest, m, bset n.hashIdx id none⟩
 
 inductive View
   | head
@@ -777,27 +799,43 @@ inductive View
   | hash (h : BlockId)
   deriving DecidableEq, Repr
 
-/-- block number of a stored block hash (`BlockHeaderNumbersByHash`) -/
+/-- block number of a block hash according to the list of stored blocks (the specification of the
+hash index; the node itself looks into `hashIdx`) -/
 def numberOf : List (BlockId × Diff) → BlockId → Option Nat
   | [], _ => none
   | (id, _) :: rest, h => if id = h then some rest.length else numberOf rest h
 
+/-- hash of block `k` (header by number) -/
+def Node.idAt {σ : Type} (n : Node σ) (k : Nat) : Option BlockId :=
+  (n.blocks[n.blocks.length - 1 - k]?).map (·.1)
+
 /-- `HeadState` / `StateAtBlockNumber` / `StateAtBlockHash`: `none` = no such view;
-`some none` = head reader, `some (some k)` = history reader at block `k` -/
-def Node.resolve {σ : Type} (n : Node σ) : View → Option (Option Nat)
+`some none` = head reader, `some (some k)` = history reader at block `k`.
+By number (no retention floor seeded, pruner/retention.go): the header of `k` must exist and its
+hash must be in the hash index. By hash: the index gives the number; the new backend then needs the
+header of that number, the legacy backend does not look. -/
+def Node.resolve {σ : Type} (be : Backend σ) (n : Node σ) : View → Option (Option Nat)
   | .head => if n.blocks.isEmpty then none else some none
-  | .num k => if k < n.blocks.length then some (some k) else none
-  | .hash h => (numberOf n.blocks h).map some
+  | .num k =>
+    if k < n.blocks.length then
+      match n.idAt k with
+      | some id => if (bget n.hashIdx id).isSome then some (some k) else none
+      | none => none
+    else none
+  | .hash h =>
+    match bget n.hashIdx h with
+    | some k => if be.hashViewNeedsHeader && !decide (k < n.blocks.length) then none else some (some k)
+    | none => none
 
 def Node.read {σ : Type} (be : Backend σ) (n : Node σ) (v : View) (q : Query) : Option Res :=
-  match n.resolve v with
+  match n.resolve be v with
   | none => none
   | some none => some (be.headRead n.st q)
   | some (some k) => some (be.histRead n.st k q)
 
 /-- `CompiledClassHash` on the same views -/
-def Node.readCasm {σ : Type} (n : Node σ) (v : View) (c : CHash) : Option Res :=
-  match n.resolve v with
+def Node.readCasm {σ : Type} (be : Backend σ) (n : Node σ) (v : View) (c : CHash) : Option Res :=
+  match n.resolve be v with
   | none => none
   | some none => some (match bget n.casmMeta c with | some mt => .ok mt.head | none => .notfound)
   | some (some k) => some (match bget n.casmMeta c with | some mt => mt.at k | none => .notfound)
